@@ -134,6 +134,17 @@ class C06LiveBounds(C06System):
         return super().canon(st) + tuple(repr(s.get_bounds(n)) for n in ("tool-power", "feed-rate", "bed-temperature", "tool-number")) + (getattr(st, "style", ";"),)
 
 
+class WriteOnlySink:
+    """An output object that can be written to and nothing else (an adapter around a queue or a widget)."""
+
+    def __init__(self):
+        self.chunks = []
+
+    def write(self, data):
+        self.chunks.append(data)
+        return len(data)
+
+
 def systems(tier):
     box = ("axes", (0, 0, 0), (10, 10, 10))
     cfgs = [
@@ -163,6 +174,9 @@ def systems(tier):
         system = C06System(f"comments-{style}", [("tool-power", 10, 100)], (100, 10))
         system.cfg, system.style = {"comment_symbols": style}, style
         out.append((f"comments-{style}", system, 4 if tier == "quick" else 60, None))
+    system = C06System("write-only-output", [("tool-power", 10, 100)], (100, 10))
+    system.cfg = {"output": WriteOnlySink()}
+    out.append(("write-only-output", system, 3 if tier == "quick" else 60, None))
     out.append(("bounds-set-at-run-time", C06LiveBounds("bounds-set-at-run-time", [], (1000, 2500)), 7 if tier == "thorough" else 4, None))
     return out
 
